@@ -13,6 +13,7 @@ DESIGN §4 C13.
 import itertools
 
 import numpy
+from sklearn.ensemble import VotingClassifier
 from sklearn.linear_model import LinearRegression
 from sklearn.naive_bayes import GaussianNB
 from sklearn.neighbors import KNeighborsClassifier
@@ -224,10 +225,13 @@ def _make_clf(name):
         return KNeighborsClassifier(n_neighbors=1), 0.0
     if name == "gnb":
         return GaussianNB(), 1e-8
+    if name == "vote":
+        # a composite learner: its fit takes sample_weight through **fit_params
+        return VotingClassifier([("g", GaussianNB()), ("t", DecisionTreeClassifier(max_depth=3, random_state=0))], voting="soft"), 1e-8
     return DecisionTreeClassifier(max_depth=3, random_state=0), 1e-9
 
 
-def _check_permutation(c, seen, X, y, labels, perm, learner_name, Xq, how):
+def _check_permutation(c, seen, X, y, labels, perm, learner_name, Xq, how, w=None):
     """One forced permutation: transformer round trip + classifier wrapper."""
     k = len(labels)
     ent = c.entropy
@@ -311,12 +315,13 @@ def _check_permutation(c, seen, X, y, labels, perm, learner_name, Xq, how):
         return
     clf, tol = _make_clf(learner_name)
     plain, _ = _make_clf(learner_name)
-    ok, r = U.sut(c, "plain.fit", plain.fit, X, y)
+    wkw = {} if w is None else {"sample_weight": w}
+    ok, r = U.sut(c, "plain.fit", plain.fit, X, y, **wkw)
     if not ok:
         c.probe("plain_classifier_rejected_data")
         return
     tt = TransformedTargetClassifier2(classifier=clf, transformer="permute")
-    ok, r = U.sut(c, "ttc.fit", tt.fit, X, y)
+    ok, r = U.sut(c, "ttc.fit", tt.fit, X, y, **wkw)
     if not ok:
         _viol(c, seen, "raised", ("classifier.fit", type(r).__name__, "labels=" + str(y.dtype.kind)), "TransformedTargetClassifier2.fit raised %s" % U.short_exc(r))
         return
@@ -381,7 +386,7 @@ def _run_permutation(c, seen, tier):
     kmax_enum = 4 if tier == "quick" else 5
     k = ch.weighted("w", [(2, 3), (3, 4), (4, 3), (5, 2), (6, 1), (7, 1), (9, 1)], "k")
     ltype = ch.choice("w", ["int", "int-arbitrary", "str", "float"], "ltype")
-    learner = ch.choice("w", ["knn1", "gnb", "tree"], "learner")
+    learner = ch.choice("w", ["knn1", "gnb", "tree", "vote"], "learner")
     n = ch.integer("w", 3 * k, 3 * k + 20, "n")
     d = ch.integer("w", 1, 3, "d")
     seed = ch.subseed("w", "data")
@@ -395,6 +400,11 @@ def _run_permutation(c, seen, tier):
     X, lab = numpy.ascontiguousarray(X[order]), lab[order]
     y = labels[lab]
     Xq = numpy.vstack([X[:4], rs.randn(4, d) + 1.0])
+    # weighted fits (learners that take weights): the wrapper equals the plain
+    # classifier trained with the same weights
+    wts = numpy.round(rs.rand(n) * 3 + 0.2, 3) if learner != "knn1" and ch.boolean("w", 0.4, "weights") else None
+    if wts is not None:
+        c.probe("classifier_with_sample_weight")
     with_nan = ltype == "float" and ch.boolean("w", 0.3, "nan")
     c.scenario.update({"clause": "permutation", "k": k, "labels": ltype, "learner": learner, "n": n, "d": d, "nan": with_nan, "data_seed": seed})
     c.signature = ["permutation", k, ltype, learner, with_nan, n // 4, d]
@@ -409,12 +419,12 @@ def _run_permutation(c, seen, tier):
         c.scenario["permutations"] = "all %d" % len(list(itertools.permutations(range(k))))
         c.probe("exhaustive_permutations_k%d" % k)
         for perm in itertools.permutations(range(k)):
-            _check_permutation(c, seen, X, yn if with_nan else y, labels, list(perm), learner, Xq, "enumerated")
+            _check_permutation(c, seen, X, yn if with_nan else y, labels, list(perm), learner, Xq, "enumerated", wts)
     else:
         draws = 6
         c.scenario["permutations"] = "%d adversarial draws" % draws
         for _ in range(draws):
-            _check_permutation(c, seen, X, yn if with_nan else y, labels, None, learner, Xq, "drawn")
+            _check_permutation(c, seen, X, yn if with_nan else y, labels, None, learner, Xq, "drawn", wts)
     # ---- one classifier object fitted twice, with a query in between: the
     #      second fit draws another permutation; nothing of the first may remain
     if k <= kmax_enum and k >= 3:
